@@ -12,6 +12,16 @@ CHECKS = {
             "Complete enumeration of the finite set of order conditions that, by Butcher's theorem, is equivalent to 'order p for every smooth right-hand side, state and small step of either sign': every tree up to the declared order for all 29 Runge-Kutta tables (53 272 conditions for RK1412), bicoloured trees for the 3 splitting schemes, the same conditions evaluated through the real step code in longdouble with h=+1 and h=-1, implicit methods through the real Newton path, and the real Richardson wrappers for 2..5 levels. exhaustive=true: the explored space is the whole space.",
             "Trusts Butcher's order theorem and a first-order rounding bound (64*2^-53*|tau|*Phi_abs) for float64-stored coefficients; RadauIIA19's order 19 is certified by the simplifying assumptions B(19), C(10), D(9) with trees enumerated to order 14 (quick) / 17 (thorough).",
             "DESIGN.md 4/C01"),
+    "C02": ("exploration",
+            "exhaustive product enumeration (method x dtype x rhs program x shape x t x signed h) with a stage-residual oracle, plus exhaustive enumeration of scripted nonlinear-solver answer strings (environment answers) up to a length bound",
+            "Every cell of the declared product is executed on the real integrator (two chained calls each) and the property's own formula is re-evaluated in longdouble from the library's stage slopes: explicit residuals to a derived rounding bound, implicit residuals to the documented Newton tolerance, the increment against h*sum(b_i k_i), splitting steps against the drift/kick composition read from the coefficient list and mask. The solver's answers are scripted exhaustively (truthful / forced failure / lying success) to show an unsolved stage system is never accepted.",
+            "Finite alphabets (6 rhs programs with known Lipschitz bounds, 3 times, 6 signed steps, 3 dtypes); rounding bound 64*eps*((1+L)*scale+|f|); MINPACK/LAPACK trusted.",
+            "DESIGN.md 4/C02"),
+    "C17": ("exploration",
+            "exhaustive enumeration of all strictly increasing arrays of length 1..7 over a 9-point grid x 21 queries (scalar and vector search, 4 container types) and of cubic/interval/evaluation-point lattices for the Hermite piece",
+            "The statement's own finite quantifier is enumerated completely: 501 arrays x 21 queries x {float32, float64, longdouble, list} against min(searchsorted_left, n-1); Hermite pieces for 7 cubics x 20 ordered intervals x 37 points x scalar/array data x 3 dtypes against the cubic itself with a derived rounding bound. exhaustive=true.",
+            "Hermite tolerance 64*eps*sum|basis||data| (absolute-coefficient bound); numpy.searchsorted trusted as the specification of 'first element not smaller'.",
+            "DESIGN.md 4/C17"),
 }
 
 NOT_YET = "check not built yet in this session (work in progress; see DESIGN.md section 4 for the planned bounded-exhaustive design)"
